@@ -117,4 +117,819 @@ theorem select_good (o : Oracle) (path method : Bytes) (l : List Rule3) :
   · left; exact ⟨hm, hall⟩
   · right; exact ⟨r, hr, _, hm, hrk, hall⟩
 
+
+/-! ### definitions and helper lemmas used by `Props.lean` -/
+
+/-- a proper (regex-free) pattern key: dotted literal labels, TLD first, then
+    the leftmost label, which may be `*` -/
+abbrev PKey := List Bytes × Bytes
+
+inductive TOp (V : Type) where
+  | ins (k : PKey) (key : Bytes) (v : V)
+  | rem (k : PKey)
+
+def tstep {V : Type} (t : Node V) : TOp V → Node V
+  | .ins k key v => (insertRec t (keySteps k.1 k.2) key v).2
+  | .rem k => (removeRec t (keySteps k.1 k.2)).2
+
+/-- the abstract map: insert keeps an existing binding (`InsertResult::Existing`) -/
+def mstep {V : Type} (m : KMap PKey (Bytes × V)) : TOp V → KMap PKey (Bytes × V)
+  | .ins k key v => if (KMap.get? m k).isSome then m else KMap.set m k (key, v)
+  | .rem k => KMap.erase m k
+
+/-- abstract lookup: the exact key, else the `*` key of the same parent -/
+def mlookup {V : Type} (m : KMap PKey (Bytes × V)) (q : PKey) : Option (Bytes × V) :=
+  (KMap.get? m q).orElse (fun _ => KMap.get? m (q.1, [STAR]))
+
+/-- simulation relation between a trie and the abstract map -/
+def TRel {V : Type} (t : Node V) (m : KMap PKey (Bytes × V)) : Prop :=
+  WF t ∧ ∀ k : PKey, get t (keySteps k.1 k.2) = KMap.get? m k
+
+theorem trel_root {V : Type} : TRel (Node.root : Node V) [] := by
+  refine ⟨wf_root, ?_⟩
+  intro k
+  obtain ⟨ds, l⟩ := k
+  cases ds <;> simp [keySteps_nil, keySteps_cons, get_leafKey', get_cons, Node.root, Node.wc, Node.children]
+
+theorem pkey_ne {k k' : PKey} (e : k' ≠ k) : (k'.1, k'.2) ≠ (k.1, k.2) := by
+  intro h; apply e; exact Prod.ext (by simpa using congrArg Prod.fst h) (by simpa using congrArg Prod.snd h)
+
+theorem trel_step {V : Type} (t : Node V) (m : KMap PKey (Bytes × V)) (op : TOp V) (h : TRel t m) :
+    TRel (tstep t op) (mstep m op) := by
+  obtain ⟨hwf, hget⟩ := h
+  cases op with
+  | ins k key v =>
+    have sp := insertRec_spec key v k.1 k.2 _ hwf
+    refine ⟨sp.wf, ?_⟩
+    intro k'
+    simp only [tstep, mstep]
+    by_cases e : k' = k
+    · subst e
+      rw [sp.self, hget]
+      cases hk : KMap.get? m k' <;> simp [hk]
+    · rw [sp.other k'.1 k'.2 (pkey_ne e), hget]
+      split
+      · rfl
+      · rw [KMap.get?_set_ne _ _ e]
+  | rem k =>
+    have sp := removeRec_spec k.1 k.2 _ hwf
+    refine ⟨sp.wf, ?_⟩
+    intro k'
+    simp only [tstep, mstep]
+    by_cases e : k' = k
+    · subst e; rw [sp.self]; simp
+    · rw [sp.other k'.1 k'.2 (pkey_ne e), hget, KMap.get?_erase_ne _ e]
+
+theorem trel_run {V : Type} (ops : List (TOp V)) :
+    ∀ (t : Node V) (m : KMap PKey (Bytes × V)), TRel t m → TRel (ops.foldl tstep t) (ops.foldl mstep m) := by
+  induction ops with
+  | nil => intro t m h; exact h
+  | cons op ops ih => intro t m h; exact ih _ _ (trel_step t m op h)
+
+/-- a leaf rule seen as a configured tree frontend of host `host` -/
+def feOf (host : Bytes) (r : Rule3) : Spec.Fe := ⟨2, host, r.1, r.2.1, r.2.2⟩
+
+theorem mem_same_key {l : List Rule3}
+    (hp : l.Pairwise (fun a b => ¬ (a.1 = b.1 ∧ a.2.1 = b.2.1))) :
+    ∀ a ∈ l, ∀ b ∈ l, a.1 = b.1 → a.2.1 = b.2.1 → a = b := by
+  induction l with
+  | nil => intro a ha; cases ha
+  | cons x t ih =>
+    rw [List.pairwise_cons] at hp
+    intro a ha b hb h1 h2
+    simp only [List.mem_cons] at ha hb
+    rcases ha with rfl | ha <;> rcases hb with rfl | hb
+    · rfl
+    · exact absurd ⟨h1, h2⟩ (hp.1 b hb)
+    · exact absurd ⟨h1.symm, h2.symm⟩ (hp.1 a ha)
+    · exact ih hp.2 a ha b hb h1 h2
+
+theorem isPrefixOf_eq {p q s : Bytes} (hp : isPrefixOf p s = true) (hq : isPrefixOf q s = true)
+    (hl : p.length = q.length) : p = q := by
+  simp only [isPrefixOf, beq_iff_eq] at hp hq
+  rw [← hp, ← hq, hl]
+
+theorem methodMatches_equals {m : MethodRule} {method : Bytes} (h : methodMatches m method = .equals) :
+    m = some method := by
+  cases m with
+  | none => simp [methodMatches] at h
+  | some y => simp only [methodMatches] at h; split at h <;> simp_all
+
+theorem methodMatches_all {m : MethodRule} {method : Bytes} (h : methodMatches m method = .all) : m = none := by
+  cases m with
+  | none => rfl
+  | some y => simp only [methodMatches] at h; split at h <;> cases h
+
+theorem matches_equals {o : Oracle} {p : PathRule} {path : Bytes} (h : p.matches o path = .equals) :
+    p = .equals path := by
+  cases p <;> simp only [PathRule.matches] at h <;> split at h <;> simp_all
+
+theorem matches_regex {o : Oracle} {p : PathRule} {path : Bytes} (h : p.matches o path = .regex) :
+    ∃ s, p = .regex s := by
+  cases p <;> simp only [PathRule.matches] at h <;> split at h <;> simp_all
+
+theorem matches_pfx {o : Oracle} {p : PathRule} {path : Bytes} {n : Nat} (h : p.matches o path = .pfx n) :
+    ∃ s, p = .pfx s ∧ s.length = n ∧ isPrefixOf s path = true := by
+  cases p <;> simp only [PathRule.matches] at h <;> split at h <;> simp_all
+
+/-- shape of a rank: the method part and the path part -/
+theorem ruleRank_some {o : Oracle} {path method : Bytes} {r : Rule3} {k : Rank}
+    (h : ruleRank o path method r = some k) :
+    ((methodMatches r.2.1 method = .equals ∧ k.2.2 = 1) ∨ (methodMatches r.2.1 method = .all ∧ k.2.2 = 0)) ∧
+    ((r.1.matches o path = .equals ∧ k.1 = 2) ∨ (r.1.matches o path = .regex ∧ k.1 = 1) ∨
+      (r.1.matches o path = .pfx k.2.1 ∧ k.1 = 0)) := by
+  simp only [ruleRank] at h
+  cases hm : methodMatches r.2.1 method <;> cases hp : r.1.matches o path <;> simp only [hm, hp] at h <;>
+    first | (cases h; done) | (cases h; simp)
+
+/-- two rules of equal rank for a request have the same `(path, method)` key,
+    unless both are REGEX rules -/
+theorem same_rank_same_key (o : Oracle) (path method : Bytes) (a b : Rule3) (k : Rank)
+    (ha : ruleRank o path method a = some k) (hb : ruleRank o path method b = some k) :
+    (∃ s s', a.1 = .regex s ∧ b.1 = .regex s') ∨ (a.1 = b.1 ∧ a.2.1 = b.2.1) := by
+  obtain ⟨hma, hpa⟩ := ruleRank_some ha
+  obtain ⟨hmb, hpb⟩ := ruleRank_some hb
+  have hmeth : a.2.1 = b.2.1 := by
+    rcases hma with ⟨e1, k1⟩ | ⟨e1, k1⟩ <;> rcases hmb with ⟨e2, k2⟩ | ⟨e2, k2⟩
+    · rw [methodMatches_equals e1, methodMatches_equals e2]
+    · omega
+    · omega
+    · rw [methodMatches_all e1, methodMatches_all e2]
+  rcases hpa with ⟨e1, k1⟩ | ⟨e1, k1⟩ | ⟨e1, k1⟩ <;> rcases hpb with ⟨e2, k2⟩ | ⟨e2, k2⟩ | ⟨e2, k2⟩ <;>
+    try (exfalso; omega)
+  · right; exact ⟨by rw [matches_equals e1, matches_equals e2], hmeth⟩
+  · left
+    obtain ⟨s, hs⟩ := matches_regex e1
+    obtain ⟨s', hs'⟩ := matches_regex e2
+    exact ⟨s, s', hs, hs'⟩
+  · right
+    obtain ⟨s, hs, hl, hp⟩ := matches_pfx e1
+    obtain ⟨s', hs', hl', hp'⟩ := matches_pfx e2
+    refine ⟨?_, hmeth⟩
+    rw [hs, hs', isPrefixOf_eq hp hp' (by omega)]
+
+theorem eqImpl_iff (a b : PathRule) : a.eqImpl b = true ↔ a = b := by
+  cases a <;> cases b <;> simp [PathRule.eqImpl]
+
+theorem sameKey3_iff (p : PathRule) (m : MethodRule) (x : Rule3) :
+    sameKey3 p m x = true ↔ (x.1 = p ∧ x.2.1 = m) := by
+  simp [sameKey3, eqImpl_iff]
+
+/-- the rule list `remove_tree_rule` leaves in a leaf -/
+def keepRules (p : PathRule) (m : MethodRule) (paths : List Rule3) : List Rule3 :=
+  paths.filter fun x => !sameKey3 p m x
+
+theorem removeTree_spec (o : Oracle) (t : Node (List Rule3)) (hwf : WF t)
+    (host : Bytes) (ds : List Bytes) (l : Bytes) (hsplit : splitKey host = some (keySteps ds l))
+    (p : PathRule) (m : MethodRule) :
+    WF (removeTree o t host p m).1 ∧
+    get (removeTree o t host p m).1 (keySteps ds l) =
+      (match get t (keySteps ds l) with
+       | none => none
+       | some kv => if (keepRules p m kv.2).isEmpty then none else some (kv.1, keepRules p m kv.2)) ∧
+    (∀ ds' l', (ds', l') ≠ (ds, l) →
+        get (removeTree o t host p m).1 (keySteps ds' l') = get t (keySteps ds' l')) := by
+  simp only [removeTree, domainLookupMut, domainModifyMut, remove, hsplit, lookupMut_eq_get o.seg ds l t hwf]
+  cases hg : get t (keySteps ds l) with
+  | none => exact ⟨hwf, hg, fun _ _ _ => rfl⟩
+  | some kv =>
+    obtain ⟨key, paths⟩ := kv
+    have sp := modifyMut_spec o.seg (fun l => l.filter fun x => !sameKey3 p m x) ds l t hwf
+    simp only [keepRules]
+    split
+    · next he =>
+      have sr := removeRec_spec ds l _ sp.wf
+      refine ⟨sr.wf, ?_, ?_⟩
+      · rw [sr.self]; simp [he]
+      · intro ds' l' hne; rw [sr.other ds' l' hne, sp.other ds' l' hne]
+    · next he =>
+      refine ⟨sp.wf, ?_, sp.other⟩
+      rw [sp.self, hg]; simp [he]
+
+theorem addTree_spec (o : Oracle) (t t' : Node (List Rule3)) (hwf : WF t)
+    (host : Bytes) (ds : List Bytes) (l : Bytes) (hsplit : splitKey host = some (keySteps ds l))
+    (p : PathRule) (m : MethodRule) (r : Route) (b : Bool) (hadd : addTree o t host p m r = some (t', b)) :
+    WF t' ∧
+    get t' (keySteps ds l) =
+      (match get t (keySteps ds l) with
+       | none => some (host, [(p, m, r)])
+       | some kv => if kv.2.any (sameKey3 p m) then some kv else some (kv.1, kv.2 ++ [(p, m, r)])) ∧
+    (∀ ds' l', (ds', l') ≠ (ds, l) → get t' (keySteps ds' l') = get t (keySteps ds' l')) := by
+  simp only [addTree, domainLookupMut, domainModifyMut, hsplit, lookupMut_eq_get o.seg ds l t hwf] at hadd
+  cases hg : get t (keySteps ds l) with
+  | none =>
+    rw [hg] at hadd
+    simp only [] at hadd
+    have sp := insertRec_spec host [(p, m, r)] ds l t hwf
+    by_cases hk : (host = [] || host = [DOT]) = true
+    · simp [Trie.insert, hk] at hadd
+    · simp only [Trie.insert, hk, Bool.false_eq_true, ↓reduceIte, hsplit] at hadd
+      split at hadd
+      · cases hadd
+      · simp only [Option.some.injEq, Prod.mk.injEq] at hadd
+        obtain ⟨rfl, _⟩ := hadd
+        refine ⟨sp.wf, ?_, sp.other⟩
+        rw [sp.self, hg]; rfl
+  | some kv =>
+    rw [hg] at hadd
+    simp only [] at hadd
+    split at hadd
+    · next hany =>
+      have sp := modifyMut_spec o.seg (fun l => l ++ [(p, m, r)]) ds l t hwf
+      simp only [Option.some.injEq, Prod.mk.injEq] at hadd
+      obtain ⟨rfl, _⟩ := hadd
+      refine ⟨sp.wf, ?_, sp.other⟩
+      rw [sp.self, hg]
+      simp only [Bool.not_eq_eq_eq_not, Bool.not_true] at hany
+      simp [hany]
+    · next hany =>
+      simp only [Option.some.injEq, Prod.mk.injEq] at hadd
+      obtain ⟨rfl, _⟩ := hadd
+      refine ⟨hwf, ?_, fun _ _ _ => rfl⟩
+      simp only [Bool.not_eq_eq_eq_not, Bool.not_true, Bool.not_eq_false] at hany
+      simp [hany, hg]
+
+theorem lookupTree_congr (o : Oracle) (t t' : Node (List Rule3)) (hwf : WF t) (hwf' : WF t')
+    (qhost : Bytes) (qds : List Bytes) (ql : Bytes) (hq : splitHost qhost = qSegs qds ql)
+    (h1 : get t' (keySteps qds ql) = get t (keySteps qds ql))
+    (h2 : get t' (keySteps qds [STAR]) = get t (keySteps qds [STAR])) (path method : Bytes) :
+    lookupTree o t' qhost path method = lookupTree o t qhost path method := by
+  simp only [lookupTree, domainLookup, hq, lookup_eq o.seg qds ql t' hwf', lookup_eq o.seg qds ql t hwf, h1, h2]
+
+/-- a pre/post rule matches the request -/
+def rule4Matches (o : Oracle) (host path method : Bytes) (r : Rule4) : Bool :=
+  r.1.matches o host && r.2.1.matches o path != PathRes.none && methodMatches r.2.2.1 method != MethodRes.none
+
+theorem scanList_eq (o : Oracle) (l : List Rule4) (host path method : Bytes) :
+    scanList o l host path method = (l.find? (rule4Matches o host path method)).map (·.2.2.2) := by
+  have e : rule4Matches o host path method = fun r => r.1.matches o host && r.2.1.matches o path != PathRes.none
+      && methodMatches r.2.2.1 method != MethodRes.none := by funext r; rfl
+  rw [e]; simp only [scanList]
+  cases List.find? _ l <;> rfl
+
+theorem sameKey4_iff (d : DomainRule) (p : PathRule) (m : MethodRule) (x : Rule4) :
+    sameKey4 d p m x = true ↔ (x.1 = d ∧ x.2.1 = p ∧ x.2.2.1 = m) := by
+  simp [sameKey4, eqImpl_iff, and_assoc]
+
+theorem find?_removeFirst_nomatch (g f : Rule4 → Bool) (l : List Rule4)
+    (h : ∀ x ∈ l, f x = true → g x = false) : (removeFirst l f).find? g = l.find? g := by
+  induction l with
+  | nil => rfl
+  | cons x t ih =>
+    simp only [removeFirst]
+    split
+    · next hf => simp [List.find?_cons, h x (by simp) hf]
+    · simp only [List.find?_cons]
+      split
+      · rfl
+      · exact ih (fun y hy => h y (by simp [hy]))
+
+/-- pairwise distinct `(domain, path, method)` keys -/
+def PPKeys (l : List Rule4) : Prop :=
+  l.Pairwise (fun a b => ¬ (a.1 = b.1 ∧ a.2.1 = b.2.1 ∧ a.2.2.1 = b.2.2.1))
+
+theorem removeFirst_sublist (l : List Rule4) (f : Rule4 → Bool) : (removeFirst l f).Sublist l := by
+  induction l with
+  | nil => exact List.Sublist.slnil
+  | cons x t ih =>
+    simp only [removeFirst]
+    split
+    · exact List.sublist_cons_self x t
+    · exact ih.cons_cons x
+
+theorem ppkeys_add (l : List Rule4) (d : DomainRule) (p : PathRule) (m : MethodRule) (r : Route)
+    (h : PPKeys l) : PPKeys (addList l d p m r).1 := by
+  simp only [addList]
+  split
+  · exact h
+  · next hany =>
+    simp only [PPKeys, List.pairwise_append, List.pairwise_cons, List.not_mem_nil, false_imp_iff, implies_true,
+      List.Pairwise.nil, and_self, List.mem_singleton, forall_eq, true_and]
+    refine ⟨h, ?_⟩
+    intro a ha hk
+    apply hany
+    simp only [List.any_eq_true]
+    exact ⟨a, ha, (sameKey4_iff d p m a).mpr hk⟩
+
+theorem ppkeys_remove (l : List Rule4) (d : DomainRule) (p : PathRule) (m : MethodRule)
+    (h : PPKeys l) : PPKeys (removeList l d p m).1 := by
+  simp only [removeList]
+  split
+  · exact List.Pairwise.sublist (removeFirst_sublist l _) h
+  · exact h
+
+theorem removeFirst_nokey (d : DomainRule) (p : PathRule) (m : MethodRule) (l : List Rule4) (h : PPKeys l) :
+    ∀ x ∈ removeFirst l (sameKey4 d p m), sameKey4 d p m x = false := by
+  induction l with
+  | nil => intro x hx; simp [removeFirst] at hx
+  | cons y t ih =>
+    rw [PPKeys, List.pairwise_cons] at h
+    simp only [removeFirst]
+    split
+    · next hy =>
+      intro x hx
+      cases hs : sameKey4 d p m x with
+      | false => rfl
+      | true =>
+        have h1 := (sameKey4_iff d p m y).mp hy
+        have h2 := (sameKey4_iff d p m x).mp hs
+        exact absurd ⟨h1.1.trans h2.1.symm, h1.2.1.trans h2.2.1.symm, h1.2.2.trans h2.2.2.symm⟩ (h.1 x hx)
+    · next hy =>
+      intro x hx
+      simp only [List.mem_cons] at hx
+      rcases hx with rfl | hx
+      · simpa using hy
+      · exact ih h.2 x hx
+
+def frontOf : Op → Front
+  | .add f => f
+  | .remove f => f
+
+/-- a tree frontend's hostname is a regex-free pattern: it splits into a
+    proper key and contains no `/` -/
+def ProperFront (f : Front) : Prop :=
+  f.pos ≠ 0 → f.pos ≠ 1 → (∃ ds l, splitKey f.host = some (keySteps ds l)) ∧ f.host.contains SLASH = false
+
+def treeHosts (ops : List Op) : List Bytes :=
+  (ops.filter fun op => (frontOf op).pos != 0 && (frontOf op).pos != 1).map fun op => (frontOf op).host
+
+/-- rules of the leaf of a key (`[]` when there is no leaf) -/
+def leafRules (t : Node (List Rule3)) (ds : List Bytes) (l : Bytes) : List Rule3 :=
+  match get t (keySteps ds l) with
+  | none => []
+  | some kv => kv.2
+
+/-- the configured tree frontends of host `H`, in configuration order -/
+def specLeaf (S : Spec.State) (H : Bytes) : List Rule3 :=
+  (S.filter fun fe => fe.pos == 2 && fe.host == H).map fun fe => (fe.path, fe.method, fe.route)
+
+structure Inv (Hs : List Bytes) (s : Router) (S : Spec.State) : Prop where
+  wf : WF s.tree
+  nonempty : ∀ ds l kv, get s.tree (keySteps ds l) = some kv → kv.2 ≠ []
+  leaf : ∀ H ∈ Hs, ∀ ds l, splitKey H = some (keySteps ds l) → leafRules s.tree ds l = specLeaf S H
+  foreign : ∀ ds l, (∀ H ∈ Hs, splitKey H ≠ some (keySteps ds l)) → get s.tree (keySteps ds l) = none
+  specok : ∀ fe ∈ S, fe.host.contains SLASH = false → (parseDomain fe.host true).isSome = true
+  pre : PPKeys s.pre
+  post : PPKeys s.post
+
+theorem parseDomain_noslash (h : Bytes) (b : Bool) (hs : h.contains SLASH = false) :
+    parseDomain h b = parseDomain h true := by
+  have : ¬ SLASH ∈ h := by simpa using hs
+  simp [parseDomain, this]
+
+theorem feSameKey_iff (a b : Spec.Fe) :
+    Spec.Fe.sameKey a b = true ↔ (a.pos = b.pos ∧ a.host = b.host ∧ a.path = b.path ∧ a.method = b.method) := by
+  simp [Spec.Fe.sameKey, and_assoc]
+
+theorem specLeaf_add (S : Spec.State) (fe : Spec.Fe) (H : Bytes) (hpos : fe.pos = 2) :
+    specLeaf (Spec.add S fe) H =
+      if fe.host = H then
+        (if (specLeaf S H).any (sameKey3 fe.path fe.method) then specLeaf S H
+         else specLeaf S H ++ [(fe.path, fe.method, fe.route)])
+      else specLeaf S H := by
+  have hany : S.any (Spec.Fe.sameKey fe) = (specLeaf S fe.host).any (sameKey3 fe.path fe.method) := by
+    rw [Bool.eq_iff_iff]
+    simp only [specLeaf, List.any_eq_true, List.mem_map, List.mem_filter, Bool.and_eq_true, beq_iff_eq,
+      feSameKey_iff, sameKey3_iff]
+    constructor
+    · rintro ⟨x, hx, h1, h2, h3, h4⟩
+      exact ⟨_, ⟨x, ⟨hx, by omega, h2.symm⟩, rfl⟩, h3.symm, h4.symm⟩
+    · rintro ⟨_, ⟨x, ⟨hx, h1, h2⟩, rfl⟩, h3, h4⟩
+      exact ⟨x, hx, by omega, h2.symm, h3.symm, h4.symm⟩
+  simp only [Spec.add]
+  by_cases e : fe.host = H
+  · subst e
+    simp only [↓reduceIte, ← hany]
+    split
+    · rfl
+    · simp [specLeaf, List.filter_append, hpos]
+  · simp only [e, ↓reduceIte]
+    split
+    · rfl
+    · simp [specLeaf, List.filter_append, e]
+
+theorem specLeaf_remove (S : Spec.State) (fe : Spec.Fe) (H : Bytes) (hpos : fe.pos = 2) :
+    specLeaf (Spec.remove S fe) H =
+      if fe.host = H then keepRules fe.path fe.method (specLeaf S H) else specLeaf S H := by
+  simp only [Spec.remove, specLeaf, keepRules, List.filter_filter, List.filter_map]
+  by_cases e : fe.host = H
+  · simp only [e, ↓reduceIte]
+    congr 1
+    apply List.filter_congr
+    intro x hx
+    rw [Bool.eq_iff_iff]
+    simp only [Function.comp, Bool.and_eq_true, beq_iff_eq, Bool.not_eq_eq_eq_not, Bool.not_true,
+      ← Bool.not_eq_true, feSameKey_iff, sameKey3_iff]
+    grind
+  · simp only [e, ↓reduceIte]
+    congr 1
+    apply List.filter_congr
+    intro x hx
+    rw [Bool.eq_iff_iff]
+    simp only [Bool.and_eq_true, beq_iff_eq, Bool.not_eq_eq_eq_not, Bool.not_true,
+      ← Bool.not_eq_true, feSameKey_iff]
+    grind
+
+theorem specLeaf_add_other (S : Spec.State) (fe : Spec.Fe) (H : Bytes) (hpos : fe.pos ≠ 2) :
+    specLeaf (Spec.add S fe) H = specLeaf S H := by
+  simp only [Spec.add]
+  split
+  · rfl
+  · simp [specLeaf, List.filter_append, hpos]
+
+theorem specLeaf_remove_other (S : Spec.State) (fe : Spec.Fe) (H : Bytes) (hpos : fe.pos ≠ 2) :
+    specLeaf (Spec.remove S fe) H = specLeaf S H := by
+  simp only [Spec.remove, specLeaf, List.filter_filter]
+  congr 1
+  apply List.filter_congr
+  intro x hx
+  rw [Bool.eq_iff_iff]
+  simp only [Bool.and_eq_true, beq_iff_eq, Bool.not_eq_eq_eq_not, Bool.not_true, ← Bool.not_eq_true, feSameKey_iff]
+  grind
+
+theorem leafRules_of_get {t : Node (List Rule3)} {ds : List Bytes} {l : Bytes} :
+    leafRules t ds l = (match get t (keySteps ds l) with | none => [] | some kv => kv.2) := rfl
+
+theorem keySteps_inj {ds ds' : List Bytes} {l l' : Bytes} (h : keySteps ds l = keySteps ds' l') :
+    (ds, l) = (ds', l') := by
+  induction ds generalizing ds' with
+  | nil =>
+    cases ds' with
+    | nil => simp [keySteps_nil] at h; simp [h]
+    | cons d' t' => cases t' <;> simp [keySteps_nil, keySteps_cons] at h
+  | cons d t ih =>
+    cases ds' with
+    | nil => cases t <;> simp [keySteps_nil, keySteps_cons] at h
+    | cons d' t' =>
+      simp only [keySteps_cons, List.cons.injEq, Step.lit.injEq, Prod.mk.injEq, true_and] at h
+      have := ih h.2
+      simp only [Prod.mk.injEq] at this
+      simp [h.1, this.1, this.2]
+
+/-- adding a tree frontend keeps the invariant -/
+theorem tree_add_inv (o : Oracle) (Hs : List Bytes)
+    (hinj : ∀ H ∈ Hs, ∀ H' ∈ Hs, splitKey H = splitKey H' → H = H')
+    (s : Router) (S : Spec.State) (h : Inv Hs s S)
+    (host : Bytes) (hmem : host ∈ Hs) (ds : List Bytes) (l : Bytes) (hsplit : splitKey host = some (keySteps ds l))
+    (p : PathRule) (m : MethodRule) (r : Route) (t' : Node (List Rule3)) (b : Bool)
+    (hadd : addTree o s.tree host p m r = some (t', b))
+    (hok : host.contains SLASH = false → (parseDomain host true).isSome = true) :
+    Inv Hs { s with tree := t' } (Spec.add S ⟨2, host, p, m, r⟩) := by
+  obtain ⟨hwf', hself, hother⟩ := addTree_spec o s.tree t' h.wf host ds l hsplit p m r b hadd
+  have hleafH := h.leaf host hmem ds l hsplit
+  refine ⟨hwf', ?_, ?_, ?_, ?_, h.pre, h.post⟩
+  · intro ds' l' kv hg
+    by_cases e : (ds', l') = (ds, l)
+    · simp only [Prod.mk.injEq] at e
+      obtain ⟨rfl, rfl⟩ := e
+      simp only [] at hg
+      rw [hself] at hg
+      cases hq : get s.tree (keySteps ds' l') with
+      | none => rw [hq] at hg; cases hg; simp
+      | some kv0 =>
+        rw [hq] at hg
+        simp only [] at hg
+        split at hg
+        · cases hg; exact h.nonempty ds' l' _ hq
+        · cases hg; simp
+    · exact h.nonempty ds' l' kv (by rw [← hother ds' l' e]; exact hg)
+  · intro H hH ds' l' hsp
+    by_cases e : H = host
+    · subst e
+      rw [hsplit] at hsp
+      have := keySteps_inj (Option.some.inj hsp)
+      simp only [Prod.mk.injEq] at this
+      obtain ⟨rfl, rfl⟩ := this
+      rw [specLeaf_add S _ H rfl]
+      simp only [↓reduceIte, ← hleafH]
+      simp only [leafRules_of_get, hself]
+      have key : ∀ g : Option (Bytes × List Rule3),
+          (match (match g with
+                  | none => some (H, [(p, m, r)])
+                  | some kv => if kv.2.any (sameKey3 p m) = true then some kv else some (kv.1, kv.2 ++ [(p, m, r)])) with
+            | none => []
+            | some kv => kv.2) =
+          if (match g with | none => [] | some kv => kv.2).any (sameKey3 p m) = true
+          then (match g with | none => [] | some kv => kv.2)
+          else (match g with | none => [] | some kv => kv.2) ++ [(p, m, r)] := by
+        intro g
+        cases g with
+        | none => simp
+        | some kv0 => simp only []; by_cases hb : kv0.2.any (sameKey3 p m) = true <;> simp [hb]
+      exact key _
+    · have hne : (ds', l') ≠ (ds, l) := by
+        intro e2
+        simp only [Prod.mk.injEq] at e2
+        obtain ⟨rfl, rfl⟩ := e2
+        exact e (hinj H hH host hmem (by rw [hsp, hsplit]))
+      have e' : ¬ host = H := fun x => e x.symm
+      rw [specLeaf_add S _ H rfl]
+      simp only [e', ↓reduceIte]
+      rw [← h.leaf H hH ds' l' hsp, leafRules_of_get, leafRules_of_get]
+      show (match get t' (keySteps ds' l') with | none => [] | some kv => kv.2) = _
+      rw [hother ds' l' hne]
+  · intro ds' l' hall
+    have hne : (ds', l') ≠ (ds, l) := by
+      intro e2
+      simp only [Prod.mk.injEq] at e2
+      obtain ⟨rfl, rfl⟩ := e2
+      exact hall host hmem hsplit
+    show get t' (keySteps ds' l') = none
+    rw [hother ds' l' hne]
+    exact h.foreign ds' l' hall
+  · intro fe hfe hs
+    simp only [Spec.add] at hfe
+    split at hfe
+    · exact h.specok fe hfe hs
+    · simp only [List.mem_append, List.mem_singleton] at hfe
+      rcases hfe with hfe | rfl
+      · exact h.specok fe hfe hs
+      · exact hok hs
+
+/-- removing a tree frontend keeps the invariant (`S'` is the Spec's answer:
+    the key filtered out of the host's frontends) -/
+theorem tree_remove_inv (o : Oracle) (Hs : List Bytes)
+    (hinj : ∀ H ∈ Hs, ∀ H' ∈ Hs, splitKey H = splitKey H' → H = H')
+    (s : Router) (S S' : Spec.State) (h : Inv Hs s S)
+    (host : Bytes) (hmem : host ∈ Hs) (ds : List Bytes) (l : Bytes) (hsplit : splitKey host = some (keySteps ds l))
+    (p : PathRule) (m : MethodRule)
+    (hS1 : specLeaf S' host = keepRules p m (specLeaf S host))
+    (hS2 : ∀ H, H ≠ host → specLeaf S' H = specLeaf S H)
+    (hS3 : ∀ fe ∈ S', fe ∈ S) :
+    Inv Hs { s with tree := (removeTree o s.tree host p m).1 } S' := by
+  obtain ⟨hwf', hself, hother⟩ := removeTree_spec o s.tree h.wf host ds l hsplit p m
+  have hleafH := h.leaf host hmem ds l hsplit
+  refine ⟨hwf', ?_, ?_, ?_, fun fe hfe => h.specok fe (hS3 fe hfe), h.pre, h.post⟩
+  · intro ds' l' kv hg
+    by_cases e : (ds', l') = (ds, l)
+    · simp only [Prod.mk.injEq] at e
+      obtain ⟨rfl, rfl⟩ := e
+      change get (removeTree o s.tree host p m).1 (keySteps ds' l') = some kv at hg
+      rw [hself] at hg
+      cases hq : get s.tree (keySteps ds' l') with
+      | none => rw [hq] at hg; cases hg
+      | some kv0 =>
+        rw [hq] at hg
+        simp only [] at hg
+        split at hg
+        · cases hg
+        · next hne => cases hg; simpa using hne
+    · exact h.nonempty ds' l' kv (by rw [← hother ds' l' e]; exact hg)
+  · intro H hH ds' l' hsp
+    by_cases e : H = host
+    · subst e
+      rw [hsplit] at hsp
+      have := keySteps_inj (Option.some.inj hsp)
+      simp only [Prod.mk.injEq] at this
+      obtain ⟨rfl, rfl⟩ := this
+      rw [hS1, ← hleafH]
+      simp only [leafRules_of_get]
+      change (match get (removeTree o s.tree H p m).1 (keySteps ds l) with | none => [] | some kv => kv.2) = _
+      rw [hself]
+      cases hq : get s.tree (keySteps ds l) with
+      | none => simp [keepRules]
+      | some kv0 =>
+        simp only []
+        by_cases hb : (keepRules p m kv0.2).isEmpty = true
+        · simp only [hb, ↓reduceIte]; simpa using hb.symm
+        · simp [hb]
+    · have hne : (ds', l') ≠ (ds, l) := by
+        intro e2
+        simp only [Prod.mk.injEq] at e2
+        obtain ⟨rfl, rfl⟩ := e2
+        exact e (hinj H hH host hmem (by rw [hsp, hsplit]))
+      rw [hS2 H e, ← h.leaf H hH ds' l' hsp, leafRules_of_get, leafRules_of_get]
+      change (match get (removeTree o s.tree host p m).1 (keySteps ds' l') with | none => [] | some kv => kv.2) = _
+      rw [hother ds' l' hne]
+  · intro ds' l' hall
+    have hne : (ds', l') ≠ (ds, l) := by
+      intro e2
+      simp only [Prod.mk.injEq] at e2
+      obtain ⟨rfl, rfl⟩ := e2
+      exact hall host hmem hsplit
+    change get (removeTree o s.tree host p m).1 (keySteps ds' l') = none
+    rw [hother ds' l' hne]
+    exact h.foreign ds' l' hall
+
+theorem not_proper_empty (ds : List Bytes) (l : Bytes) : splitKey ([] : Bytes) ≠ some (keySteps ds l) := by
+  cases ds <;> simp [splitKey, splitKeyAux, keySteps_nil, keySteps_cons]
+
+theorem not_proper_dot (ds : List Bytes) (l : Bytes) : splitKey [DOT] ≠ some (keySteps ds l) := by
+  have : splitKey [DOT] = some [Step.lit (true, [])] := by decide
+  rw [this]
+  cases ds with
+  | nil => simp [keySteps_nil]
+  | cons d t => cases t <;> simp [keySteps_nil, keySteps_cons]
+
+theorem addTree_total (o : Oracle) (t : Node (List Rule3)) (hwf : WF t)
+    (host : Bytes) (ds : List Bytes) (l : Bytes) (hsplit : splitKey host = some (keySteps ds l))
+    (p : PathRule) (m : MethodRule) (r : Route) : ∃ x, addTree o t host p m r = some x := by
+  simp only [addTree, domainLookupMut, hsplit]
+  cases hg : lookupMut o.seg false t (keySteps ds l) with
+  | some kv => simp only []; split <;> exact ⟨_, rfl⟩
+  | none =>
+    simp only []
+    have h1 : host ≠ [] := by intro e; subst e; exact not_proper_empty ds l hsplit
+    have h2 : host ≠ [DOT] := by intro e; subst e; exact not_proper_dot ds l hsplit
+    have sp := insertRec_spec host [(p, m, r)] ds l t hwf
+    have hne : (Trie.insert t host [(p, m, r)]).1 ≠ InsertResult.failed := by
+      simp only [Trie.insert, h1, h2, Bool.or_self, Bool.false_eq_true, ↓reduceIte, hsplit, decide_false]
+      rw [sp.code]; split <;> simp
+    simp only [hne, ↓reduceIte]
+    exact ⟨_, rfl⟩
+
+theorem mem_spec_add {S : Spec.State} {fe x : Spec.Fe} (h : x ∈ Spec.add S fe) : x ∈ S ∨ x = fe := by
+  simp only [Spec.add] at h
+  by_cases hb : S.any (Spec.Fe.sameKey fe) = true
+  · rw [if_pos hb] at h; exact Or.inl h
+  · rw [if_neg hb] at h
+    simp only [List.mem_append, List.mem_singleton] at h
+    exact h
+
+/-- every operation keeps the invariant -/
+theorem inv_step (o : Oracle) (Hs : List Bytes)
+    (hinj : ∀ H ∈ Hs, ∀ H' ∈ Hs, splitKey H = splitKey H' → H = H')
+    (s : Router) (S : Spec.State) (h : Inv Hs s S) (op : Op) (hp : ProperFront (frontOf op))
+    (hmem : (frontOf op).pos ≠ 0 → (frontOf op).pos ≠ 1 → (frontOf op).host ∈ Hs) :
+    Inv Hs (step o s op) (Spec.step S op) := by
+  cases op with
+  | add f =>
+    simp only [frontOf] at hp hmem
+    simp only [step, addFront, Spec.step, Spec.feOfFront]
+    cases hpath : pathOfFront f with
+    | none => exact h
+    | some p =>
+      cases hdom : parseDomain f.host f.hostOk with
+      | none => exact h
+      | some d =>
+        simp only []
+        have hok : f.host.contains SLASH = false → (parseDomain f.host true).isSome = true := by
+          intro hs; rw [← parseDomain_noslash f.host f.hostOk hs, hdom]; rfl
+        by_cases h0 : f.pos = 0
+        · simp only [h0, ↓reduceIte]
+          refine ⟨h.wf, h.nonempty, ?_, h.foreign, ?_, ppkeys_add _ d p f.method _ h.pre, h.post⟩
+          · intro H hH ds l hsp; rw [specLeaf_add_other _ _ _ (by simp)]; exact h.leaf H hH ds l hsp
+          · intro fe hfe hs
+            rcases mem_spec_add hfe with hfe | rfl
+            · exact h.specok fe hfe hs
+            · exact hok hs
+        · by_cases h1 : f.pos = 1
+          · simp only [h0, h1, ↓reduceIte]
+            refine ⟨h.wf, h.nonempty, ?_, h.foreign, ?_, h.pre, ppkeys_add _ d p f.method _ h.post⟩
+            · intro H hH ds l hsp; rw [specLeaf_add_other _ _ _ (by simp)]; exact h.leaf H hH ds l hsp
+            · intro fe hfe hs
+              rcases mem_spec_add hfe with hfe | rfl
+              · exact h.specok fe hfe hs
+              · exact hok hs
+          · simp only [h0, h1, ↓reduceIte]
+            obtain ⟨⟨ds, l, hsplit⟩, _⟩ := hp h0 h1
+            obtain ⟨x, hx⟩ := addTree_total o s.tree h.wf f.host ds l hsplit p f.method (routeOfFront f)
+            rw [hx]
+            exact tree_add_inv o Hs hinj s S h f.host (hmem h0 h1) ds l hsplit p f.method (routeOfFront f) x.1 x.2
+              (by simpa using hx) hok
+  | remove f =>
+    simp only [frontOf] at hp hmem
+    simp only [step, removeFront, Spec.step, Spec.feOfFront]
+    cases hpath : pathOfFront f with
+    | none => exact h
+    | some p =>
+      simp only []
+      by_cases h0 : f.pos = 0
+      · simp only [h0, ↓reduceIte]
+        cases hdom : parseDomain f.host f.hostOk with
+        | none => exact h
+        | some d =>
+          simp only []
+          refine ⟨h.wf, h.nonempty, ?_, h.foreign, ?_, ppkeys_remove _ d p f.method h.pre, h.post⟩
+          · intro H hH ds l hsp; rw [specLeaf_remove_other _ _ _ (by simp)]; exact h.leaf H hH ds l hsp
+          · intro fe hfe hs
+            exact h.specok fe (by simp only [Spec.remove, List.mem_filter] at hfe; exact hfe.1) hs
+      · by_cases h1 : f.pos = 1
+        · simp only [h0, h1, ↓reduceIte]
+          cases hdom : parseDomain f.host f.hostOk with
+          | none => exact h
+          | some d =>
+            simp only []
+            refine ⟨h.wf, h.nonempty, ?_, h.foreign, ?_, h.pre, ppkeys_remove _ d p f.method h.post⟩
+            · intro H hH ds l hsp; rw [specLeaf_remove_other _ _ _ (by simp)]; exact h.leaf H hH ds l hsp
+            · intro fe hfe hs
+              exact h.specok fe (by simp only [Spec.remove, List.mem_filter] at hfe; exact hfe.1) hs
+        · simp only [h0, h1, ↓reduceIte]
+          obtain ⟨⟨ds, l, hsplit⟩, hns⟩ := hp h0 h1
+          cases hdom : parseDomain f.host f.hostOk with
+          | some d =>
+            simp only []
+            exact tree_remove_inv o Hs hinj s S _ h f.host (hmem h0 h1) ds l hsplit p f.method
+              (by rw [specLeaf_remove _ _ _ rfl]; simp)
+              (fun H hH => by
+                have hne : ¬ f.host = H := fun e => hH e.symm
+                rw [specLeaf_remove _ _ _ rfl]; simp [hne])
+              (fun fe hfe => by simp only [Spec.remove, List.mem_filter] at hfe; exact hfe.1)
+          | none =>
+            simp only []
+            -- the host never parsed, so nothing of it is configured: the leaf is empty on both sides
+            have hnone : specLeaf S f.host = [] := by
+              simp only [specLeaf, List.map_eq_nil_iff, List.filter_eq_nil_iff, Bool.and_eq_true, beq_iff_eq, not_and]
+              intro fe hfe _ hh
+              have := h.specok fe hfe (by rw [hh]; exact hns)
+              rw [hh, ← parseDomain_noslash f.host f.hostOk hns, hdom] at this
+              cases this
+            exact tree_remove_inv o Hs hinj s S S h f.host (hmem h0 h1) ds l hsplit p f.method
+              (by rw [hnone]; rfl) (fun _ _ => rfl) (fun _ hfe => hfe)
+
+theorem inv_init (Hs : List Bytes) : Inv Hs Router.new [] := by
+  have hroot : ∀ ds l, get (Node.root : Node (List Rule3)) (keySteps ds l) = none := by
+    intro ds l
+    cases ds <;> simp [keySteps_nil, keySteps_cons, get_leafKey', get_cons, Node.root, Node.wc, Node.children]
+  refine ⟨wf_root, ?_, ?_, ?_, ?_, List.Pairwise.nil, List.Pairwise.nil⟩
+  · intro ds l kv hg; simp only [Router.new] at hg; rw [hroot] at hg; cases hg
+  · intro H _ ds l _; simp [leafRules, Router.new, hroot, specLeaf]
+  · intro ds l _; exact hroot ds l
+  · intro fe hfe; cases hfe
+
+theorem inv_run (o : Oracle) (Hs : List Bytes)
+    (hinj : ∀ H ∈ Hs, ∀ H' ∈ Hs, splitKey H = splitKey H' → H = H') (ops : List Op) :
+    ∀ (s : Router) (S : Spec.State), Inv Hs s S →
+      (∀ op ∈ ops, ProperFront (frontOf op)) →
+      (∀ op ∈ ops, (frontOf op).pos ≠ 0 → (frontOf op).pos ≠ 1 → (frontOf op).host ∈ Hs) →
+      Inv Hs (ops.foldl (step o) s) (ops.foldl Spec.step S) := by
+  induction ops with
+  | nil => intro s S h _ _; exact h
+  | cons op t ih =>
+    intro s S h hp hm
+    exact ih _ _ (inv_step o Hs hinj s S h op (hp op (by simp)) (hm op (by simp)))
+      (fun x hx => hp x (by simp [hx])) (fun x hx => hm x (by simp [hx]))
+
+/-- a history whose tree frontends have regex-free hostnames, pairwise
+    distinguishable by their split (byte-level injectivity of `splitKey` on the
+    hostnames used is a hypothesis here) -/
+structure ProperHistory (ops : List Op) : Prop where
+  proper : ∀ op ∈ ops, ProperFront (frontOf op)
+  inj : ∀ H ∈ treeHosts ops, ∀ H' ∈ treeHosts ops, splitKey H = splitKey H' → H = H'
+
+theorem mem_treeHosts {ops : List Op} {op : Op} (h : op ∈ ops) (h0 : (frontOf op).pos ≠ 0) (h1 : (frontOf op).pos ≠ 1) :
+    (frontOf op).host ∈ treeHosts ops := by
+  simp only [treeHosts, List.mem_map, List.mem_filter, Bool.and_eq_true, bne_iff_ne, ne_eq]
+  exact ⟨op, ⟨h, h0, h1⟩, rfl⟩
+
+/-- the Spec's configured set has pairwise distinct keys -/
+theorem spec_keys (ops : List Op) :
+    ∀ (S : Spec.State), S.Pairwise (fun a b => ¬ Spec.Fe.sameKey a b = true) →
+      (ops.foldl Spec.step S).Pairwise (fun a b => ¬ Spec.Fe.sameKey a b = true) := by
+  induction ops with
+  | nil => intro S h; exact h
+  | cons op t ih =>
+    intro S h
+    apply ih
+    cases op with
+    | add f =>
+      simp only [Spec.step]
+      split
+      · next fe _ =>
+        simp only [Spec.add]
+        split
+        · exact h
+        · next hany =>
+          rw [List.pairwise_append]
+          refine ⟨h, List.pairwise_singleton _ _, ?_⟩
+          intro a ha b hb
+          simp only [List.mem_singleton] at hb
+          subst hb
+          intro hk
+          apply hany
+          rw [List.any_eq_true]
+          refine ⟨a, ha, ?_⟩
+          rw [feSameKey_iff] at hk ⊢
+          exact ⟨hk.1.symm, hk.2.1.symm, hk.2.2.1.symm, hk.2.2.2.symm⟩
+      · exact h
+    | remove f =>
+      simp only [Spec.step]
+      split
+      · exact List.Pairwise.sublist List.filter_sublist h
+      · exact h
+
+theorem specLeaf_keys (S : Spec.State) (hS : S.Pairwise (fun a b => ¬ Spec.Fe.sameKey a b = true)) (H : Bytes) :
+    (specLeaf S H).Pairwise (fun a b => ¬ (a.1 = b.1 ∧ a.2.1 = b.2.1)) := by
+  simp only [specLeaf]
+  rw [List.pairwise_map]
+  refine List.Pairwise.imp_of_mem ?_ (List.Pairwise.filter _ hS)
+  intro a b ha hb hk hkey
+  simp only [List.mem_filter, Bool.and_eq_true, beq_iff_eq] at ha hb
+  apply hk
+  rw [feSameKey_iff]
+  exact ⟨by omega, ha.2.2.trans hb.2.2.symm, hkey.1, hkey.2⟩
+
+/-- "at most one REGEX rule attains the maximal rank for the request" -/
+def AtMostOneRegexAtMax (o : Oracle) (path method : Bytes) (l : List Rule3) : Prop :=
+  ∀ a ∈ l, ∀ b ∈ l, ∀ k, ruleRank o path method a = some k → ruleRank o path method b = some k →
+    (∀ c ∈ l, ∀ kc, ruleRank o path method c = some kc → rankGt kc k = false) →
+    (∃ s s', a.1 = .regex s ∧ b.1 = .regex s') → a = b
+
+theorem get_none_iff_leafRules {Hs : List Bytes} {s : Router} {S : Spec.State} (h : Inv Hs s S)
+    (ds : List Bytes) (l : Bytes) : get s.tree (keySteps ds l) = none ↔ leafRules s.tree ds l = [] := by
+  simp only [leafRules]
+  cases hg : get s.tree (keySteps ds l) with
+  | none => simp
+  | some kv => simpa using h.nonempty ds l kv hg
+
 end Sozu.Router
